@@ -865,6 +865,11 @@ impl Session {
     /// Write a frame to the connection
     pub async fn write_frame(&self, frame: Frame) -> Result<()> {
         use tokio_util::codec::Encoder;
+        // A closed session accepts nothing any more (in buffering mode the frame would
+        // otherwise be "written" successfully into a buffer nobody will ever flush).
+        if self.is_closed() {
+            return Err(AnyTlsError::SessionClosed);
+        }
         let frame_cmd = frame.cmd;
         let frame_stream_id = frame.stream_id;
         let mut codec = FrameCodec;
